@@ -174,7 +174,7 @@ def prepare(verbose=True):
 # ---------------------------------------------------------------------------------------- queries
 class Query:
     def __init__(self, name, harness, entry, defines=None, unwind=8, unwindset=None, lib="call", ub=True, frozen=False, timeout=None,
-                 cbmc_flags=None, expose=None, tiers=("quick", "thorough"), note="", solver=None, objbits=12, leak=False, known=None, inline=None, cc_defs=None, stubs=None):
+                 cbmc_flags=None, expose=None, tiers=("quick", "thorough"), note="", solver=None, objbits=12, leak=False, known=None, inline=None, cc_defs=None, stubs=None, unit_flags=None):
         self.name, self.harness, self.entry = name, harness, entry
         self.defines = defines or {}
         self.unwind, self.unwindset = unwind, unwindset or {}
@@ -185,6 +185,7 @@ class Query:
         self.known = known              # key into known_findings.txt
         self.inline = inline
         self.cc_defs = cc_defs or []
+        self.unit_flags = unit_flags or {}     # {unit: [extra clang flags]}: that library unit is recompiled for this query (e.g. -fno-inline so that a function can be stubbed)
         self.stubs = stubs or []          # library functions (mangled names) whose definition is replaced by one the harness provides under the same name
 
 
@@ -204,6 +205,18 @@ def build_query(q, cache, ll2c, qdir, witness):
     inl = ["-mllvm", f"-inline-threshold={q.inline}"] if q.inline else []
     sh(["clang++-14"] + LIBFLAGS + inl + ["-fno-access-control", f"-I{HARN}", "-S", "-emit-llvm", os.path.join(HARN, q.harness), "-o", hll] + defs)
     lib = os.path.join(cache, f"lib_{q.lib}.ll")
+    if q.unit_flags:
+        excl = {"call_machine", "json"} if q.lib == "direct" else LIB_EXCLUDE
+        units = []
+        for s in lib_sources():
+            b = os.path.splitext(os.path.basename(s))[0]
+            if b in excl: continue
+            if b in q.unit_flags:
+                u = os.path.join(qdir, f"{b}.{tag}.ll")
+                sh(["clang++-14"] + LIBFLAGS + q.unit_flags[b] + ["-S", "-emit-llvm", s, "-o", u]); units.append(u)
+            else: units.append(os.path.join(cache, "ir", b + ".ll"))
+        lib = os.path.join(qdir, f"libu.{tag}.ll")
+        sh(["llvm-link-14", "-S", "-o", lib] + units)
     if q.stubs:
         # the harness defines a function under the same (mangled) name; the library's definition is made weak and taken out of its
         # comdat so that llvm-link resolves every call to the harness definition
@@ -234,6 +247,10 @@ def build_query(q, cache, ll2c, qdir, witness):
     if q.ub and not witness: flags.append("--ub")
     if q.frozen and not witness: flags.append("--frozen")
     sh([ll2c, oll, "-o", c] + flags)
+    # every LL_* macro the translator emitted must be defined by the prelude (an undefined one would silently become a bodyless function)
+    used = set(re.findall(r"\b(LL_[A-Za-z0-9_]+)\s*\(", open(c).read()))
+    defined = set(re.findall(r"#\s*define\s+(LL_[A-Za-z0-9_]+)", open(f"{TOOL}/ll2c_prelude.h").read()))
+    if used - defined: raise RuntimeError("prelude does not define: " + " ".join(sorted(used - defined)))
     gb = os.path.join(qdir, f"m.{tag}.gb")
     sh(["goto-cc", "-D__CPROVER__", "-o", gb, c, "--function", q.entry] + ([f"-DLL_OBJBITS={q.objbits}"] if q.objbits else []) + [f"-D{d}" for d in q.cc_defs])
     return gb, c
@@ -268,6 +285,7 @@ def run_cbmc(q, gb, cfile, qdir, witness, timeout, memgb):
     tag = "w" if witness else "m"
     cmd = ["cbmc", gb, "--function", q.entry, "--unwind", str(q.unwind), "--no-malloc-may-fail", "--drop-unused-functions", "--json-ui", "--verbosity", "6"]
     sets, loops = loop_bounds(q, gb, cfile)
+    if witness: sets = [s for s in sets if not s.startswith("ll_frozen_check")]     # not referenced (dropped) in the uninstrumented twin
     if sets: cmd += ["--unwindset", ",".join(sets)]
     if witness:
         cmd += ["--no-standard-checks", "--stop-on-fail"]
@@ -360,7 +378,7 @@ def native_replay(q, rdir, vals, repo=REPO):
     with open(os.path.join(rdir, "values.txt"), "w") as f:
         f.write(f"# nondet return values in call order for {q.harness}:{q.entry} {q.defines}\n")
         for k, v in vals: f.write(f"{v:#x}\n")
-    meta = {"harness": q.harness, "entry": q.entry, "defines": q.defines, "lib": q.lib, "name": q.name, "leak": q.leak}
+    meta = {"harness": q.harness, "entry": q.entry, "defines": q.defines, "lib": q.lib, "name": q.name, "leak": q.leak, "stubs": q.stubs, "unit_flags": q.unit_flags}
     json.dump(meta, open(os.path.join(rdir, "meta.json"), "w"), indent=1)
     return run_replay(rdir)
 
@@ -379,8 +397,15 @@ def run_replay(rdir):
             with cf.ThreadPoolExecutor(16) as ex: list(ex.map(one, srcs))
             open(os.path.join(objdir, "done"), "w").write("ok")
     exe = os.path.join(rdir, "replay.exe")
+    objs = glob.glob(os.path.join(objdir, "*.o"))
+    extra = []
+    for unit, fl in (meta.get("unit_flags") or {}).items():      # units recompiled for the query (e.g. -fno-inline so that a stub takes effect)
+        o = os.path.join(rdir, unit + ".o")
+        sh(["clang++-14"] + NATIVEFLAGS + san + fl + ["-c", f"{REPO}/src/{unit}.cpp", "-o", o])
+        objs = [x for x in objs if os.path.basename(x) != unit + ".cpp.o"] + [o]
+    if meta.get("stubs"): extra = ["-Wl,--allow-multiple-definition"]          # the harness' definition (first on the command line) replaces the library's
     sh(["clang++-14"] + NATIVEFLAGS + san + ["-fno-access-control", "-DVH_NATIVE", f"-DVH_ENTRY_NAME={meta['entry']}", f"-I{HARN}",
-        os.path.join(HARN, meta["harness"]), os.path.join(HARN, "replay_rt.cpp")] + defs + glob.glob(os.path.join(objdir, "*.o")) + ["-o", exe])
+        os.path.join(HARN, meta["harness"]), os.path.join(HARN, "replay_rt.cpp")] + defs + objs + extra + ["-o", exe])
     env = dict(os.environ, VH_VALUES=os.path.join(rdir, "values.txt"), ASAN_OPTIONS=("detect_leaks=1" if meta.get("leak") else "detect_leaks=0") + ":abort_on_error=0:exitcode=43", UBSAN_OPTIONS="print_stacktrace=1:halt_on_error=1:exitcode=44")
     try:
         p = subprocess.run([exe], env=env, stdout=subprocess.PIPE, stderr=subprocess.STDOUT, text=True, timeout=60)
